@@ -618,7 +618,12 @@ def run_c05(ctx) -> Corr:
                 "node 0 carrying a selectable or unselectable version, other nodes; a new Gateway object per run or the same object "
                 "entered again; type-gate probes and traffic before any version report, then reports): after entering, after every "
                 "operation and after leaving, the reported version must be the last accepted report seen by that object (None for a "
-                "new object) and the active protocol the one selected for it, the gate judged against that protocol. "
+                "new object) and the active protocol the one selected for it, the gate judged against that protocol; "
+                "schedules over 2-4 Gateway objects alive in one process (constructed at any point of the schedule, each fed its "
+                "own version reports - every ordered pair of 2.3.2/2.2.0/2.1.1/2.0.0/1.5.1/1.4.9, every order of three gateways' "
+                "reports, random interleavings with grid/corpus strings, rejected reports, gate sweeps, traffic and sends): after "
+                "every step every live gateway must show the last version IT reported and the protocol selected for it, and its "
+                "type gates follow that protocol. "
                 "Oracle = numeric major.minor selection on the release grammar, "
                 "and on every string the newest key the string is not below in awesomeversion's order. non-trivial = distinct "
                 "version string or (version, type) pair")
@@ -740,6 +745,9 @@ def run_c05(ctx) -> Corr:
     # sessions of gateways configured with a persistence file: what an earlier run left on disk is not a version report
     from . import versessions
     versessions.run(corr, ctx, grid, short, want_protocol, fields_of, proto_tables, project)
+    # several gateways alive in one process: every gateway follows the version IT reported, whatever the others were told
+    from . import multigw
+    multigw.run(corr, ctx, grid, short, want_protocol, fields_of, proto_tables, project)
     corr.exhaustive = False
     return corr
 
